@@ -92,12 +92,15 @@ def _exact_spectrum(case, pri):
     n = len(dr.LAYOUTS[layout]['wl'])
     tmp = dr.build_obs(layout, [OBS_BASE] * n, dr.error_bars(case['errors'], n))
     p = dr.build_model(case['tp'])
+    off = 0.0
     for name, pr, u in zip(case['fitted'], pri, _centre(pri)):
         dr.set_param(p, name, pr.value(pr.sample(u)))
+        if name == 'obs_offset':
+            off = pr.value(pr.sample(u))
     binner = tmp.create_binner()
     binned = np.array(binner.bin_model(p.model.model())[1], dtype=float)
     rows = np.zeros(n)
-    rows[_sorted_perm(layout)] = binned
+    rows[_sorted_perm(layout)] = binned - off      # observed + offset == binned model at the centre
     return rows.tolist()
 
 
@@ -105,7 +108,7 @@ def _run_sampler(sampler, case, pbn, points_fn, spectrum):
     """fresh everything; points_fn(order) lists the unit-cube points in the optimiser's parameter
     order; returns (plan, fit order names, obs)"""
     n = len(dr.LAYOUTS[case['layout']]['wl'])
-    obs = dr.build_obs(case['layout'], spectrum, dr.error_bars(case['errors'], n))
+    obs = dr.build_obs(case['layout'], spectrum, dr.error_bars(case['errors'], n), offset='obs_offset' in case['fitted'])
     p = dr.build_model(case['tp'])
     path = fx.fresh_dir('c06_' + sampler)
     first = case.get('first_layout')
@@ -116,7 +119,8 @@ def _run_sampler(sampler, case, pbn, points_fn, spectrum):
         # the optimiser first serves another observation (one complete likelihood evaluation), which is then
         # replaced through set_observed: nothing of the first observation may survive
         n0 = len(dr.LAYOUTS[first]['wl'])
-        obs0 = dr.build_obs(first, _obs_spectrum(dict(case, layout=first), n0), dr.error_bars('constant', n0))
+        obs0 = dr.build_obs(first, _obs_spectrum(dict(case, layout=first), n0), dr.error_bars('constant', n0),
+                            offset='obs_offset' in case['fitted'])
         opt = dr.make_optimizer(sampler, obs0, p.model, path)
         dr.configure(opt, p.model, case['fitted'], case['priors'])
         plan0 = ds.Plan()
@@ -128,6 +132,7 @@ def _run_sampler(sampler, case, pbn, points_fn, spectrum):
             plan0.modes = ds.Plan(modes=[(dummy0, [0.5, 0.5])]).modes
             opt.compute_fit()
         opt.set_observed(obs)
+        dr.configure(opt, p.model, case['fitted'], case['priors'])      # the new observation's own parameters
     plan = ds.Plan()
     with _silent(), ds.active(plan):
         opt.compile_params()
@@ -149,7 +154,8 @@ class Oracle(object):
         self.part = dr.build_model(self.tp)
         self.centres = np.array(obs.wavenumberGrid, dtype=float)
         self.widths = np.array(obs.binWidths, dtype=float)
-        self.data = np.array(obs.spectrum, dtype=float)
+        # the observed values as given (the sampler run leaves the live object at its last offset)
+        self.data = np.array(obs.spectrum, dtype=float) - float(getattr(obs, '_offset', 0.0))
         self.sig = np.array(obs.errorBar, dtype=float)
         self.cache = {}
 
@@ -167,7 +173,8 @@ class Oracle(object):
         o = np.argsort(wn)
         nc, nw = rs.native_bins(wn[o])
         binned = rs.overlap_bin(nc, nw, spec[o], self.centres, self.widths)
-        out = rs.gauss_loglike(self.data, self.sig, binned) + (float(np.ptp(spec)),)
+        out = rs.gauss_loglike(self.data + float(values.get('obs_offset', 0.0)), self.sig, binned) + \
+            (float(np.ptp(spec)),)
         self.cache[key] = out
         return out
 
@@ -265,11 +272,11 @@ def _same(x, y):
 # sequences
 # ----------------------------------------------------------------------------------------------
 SEQ = {
-    'iso': {'fitted': ['T', 'H2O', 'CH4'],
+    'iso': {'fitted': ['T', 'H2O', 'CH4', 'obs_offset'],
             'priors': {'H2O': 'uniform'},
-            'letters': {'v1': {'T': 0.25, 'H2O': 0.5, 'CH4': 0.25},
-                        'v2': {'T': 0.75, 'H2O': 0.25, 'CH4': 0.5},
-                        'mix': {'T': 0.5, 'H2O': 1.0, 'CH4': 1.0}}},
+            'letters': {'v1': {'T': 0.25, 'H2O': 0.5, 'CH4': 0.25, 'obs_offset': 0.25},
+                        'v2': {'T': 0.75, 'H2O': 0.25, 'CH4': 0.5, 'obs_offset': 1.0},
+                        'mix': {'T': 0.5, 'H2O': 1.0, 'CH4': 1.0, 'obs_offset': 0.5}}},
     'npoint': {'fitted': ['T_point1', 'P_point1', 'H2O', 'CH4'],
                'priors': {'H2O': 'uniform', 'P_point1': 'loguniform'},
                'letters': {'v1': {'T_point1': 0.25, 'P_point1': 0.5, 'H2O': 0.5, 'CH4': 0.25},
@@ -328,9 +335,9 @@ def swap_case(case):
 # ----------------------------------------------------------------------------------------------
 # exploration
 # ----------------------------------------------------------------------------------------------
-SUBSET_POOL = {'iso': ['planet_radius', 'T', 'H2O', 'clouds_pressure'],
+SUBSET_POOL = {'iso': ['planet_radius', 'T', 'H2O', 'clouds_pressure', 'obs_offset'],
                'npoint': ['T_point1', 'P_point1', 'H2O', 'planet_radius'],
-               'guillot': ['T_irr', 'kappa_irr']}
+               'guillot': ['T_irr', 'kappa_irr', 'obs_offset']}
 NEED = {'iso': None, 'npoint': ('T_point1', 'P_point1'), 'guillot': None}
 
 
@@ -358,7 +365,7 @@ def _prior_products(fitted):
 
 
 PAIRS = [('iso', ['T', 'H2O']), ('iso', ['planet_radius', 'clouds_pressure']),
-         ('npoint', ['T_point1', 'P_point1'])]
+         ('npoint', ['T_point1', 'P_point1']), ('iso', ['H2O', 'obs_offset'])]
 
 
 def explore(ctx):
